@@ -2,8 +2,8 @@ package driver
 
 import (
 	"context"
-	"errors"
 	sqldriver "database/sql/driver"
+	"errors"
 
 	"github.com/akrennmair/updog"
 	"github.com/akrennmair/updog/internal/convert"
